@@ -1,0 +1,92 @@
+/*
+ * Verification hooks: delay injection and internal event taps.
+ * Everything in this file is inert unless the library is compiled with
+ * -DPARSEC_VERIF; with the guard off the macros expand to nothing.
+ */
+#ifndef PARSEC_VERIF_HOOKS_H_HAS_BEEN_INCLUDED
+#define PARSEC_VERIF_HOOKS_H_HAS_BEEN_INCLUDED
+
+#if defined(PARSEC_VERIF)
+
+#include <stdint.h>
+
+#if defined(__cplusplus)
+extern "C" {
+#endif
+
+/* Yield sites. Keep below 64: the site mask is one 64-bit word. */
+enum {
+    PARSEC_VERIF_SITE_DEPS_COUNTER = 0,
+    PARSEC_VERIF_SITE_DEPS_MASK,
+    PARSEC_VERIF_SITE_TERMDET_LOCAL,
+    PARSEC_VERIF_SITE_LIFO,
+    PARSEC_VERIF_SITE_HASH_TABLE,
+    PARSEC_VERIF_SITE_RWLOCK,
+    PARSEC_VERIF_SITE_OBJECT,
+    PARSEC_VERIF_SITE_INFO,
+    PARSEC_VERIF_SITE_FUTURE,
+    PARSEC_VERIF_SITE_DATAREPO,
+    PARSEC_VERIF_SITE_ARENA,
+    PARSEC_VERIF_SITE_MEMPOOL,
+    PARSEC_VERIF_SITE_HBBUFFER,
+    PARSEC_VERIF_SITE_MAXHEAP,
+    PARSEC_VERIF_SITE_DTD,
+    PARSEC_VERIF_SITE_SCHEDULING,
+    PARSEC_VERIF_SITE_COMPOUND,
+    PARSEC_VERIF_SITE_DATA,
+    PARSEC_VERIF_SITE_LIST,
+    PARSEC_VERIF_SITE_TASKPOOL,
+    PARSEC_VERIF_SITE_MAX
+};
+
+/* Event kinds delivered to parsec_verif_event_cb. */
+enum {
+    PARSEC_VERIF_EV_ACT_SEND = 1,
+    PARSEC_VERIF_EV_ACT_RECV,
+    PARSEC_VERIF_EV_REPO_RECLAIM,
+    PARSEC_VERIF_EV_TERMDET_STATE,
+    PARSEC_VERIF_EV_TP_TERMINATED,
+    PARSEC_VERIF_EV_TASK_READY
+};
+
+/**
+ * -1: not yet configured (first use reads PARSEC_VERIF_YIELD=<seed>:<permille>:<max_us>[:<sitemask-hex>]),
+ *  0: disabled, otherwise the probability in 1/1000 of delaying at an enabled site.
+ * A harness may also set these globals directly before starting its threads.
+ */
+extern volatile int      parsec_verif_yield_permille;
+extern volatile int      parsec_verif_yield_max_us;
+extern volatile uint64_t parsec_verif_yield_seed;
+extern volatile uint64_t parsec_verif_yield_sites;
+extern volatile uint64_t parsec_verif_yield_hits[PARSEC_VERIF_SITE_MAX];
+
+void parsec_verif_yield_slow(int site);
+
+typedef void (*parsec_verif_event_cb_t)(int kind, const void *ptr, int64_t a, int64_t b);
+extern volatile parsec_verif_event_cb_t parsec_verif_event_cb;
+
+#define PARSEC_VERIF_YIELD(site)                                        \
+    do {                                                                \
+        if( 0 != parsec_verif_yield_permille )                          \
+            parsec_verif_yield_slow(site);                              \
+    } while(0)
+
+#define PARSEC_VERIF_EVENT(kind, ptr, a, b)                             \
+    do {                                                                \
+        parsec_verif_event_cb_t __vcb = parsec_verif_event_cb;          \
+        if( NULL != __vcb )                                             \
+            __vcb((kind), (const void*)(ptr), (int64_t)(a), (int64_t)(b)); \
+    } while(0)
+
+#if defined(__cplusplus)
+}
+#endif
+
+#else  /* !PARSEC_VERIF */
+
+#define PARSEC_VERIF_YIELD(site)             do {} while(0)
+#define PARSEC_VERIF_EVENT(kind, ptr, a, b)  do {} while(0)
+
+#endif /* PARSEC_VERIF */
+
+#endif /* PARSEC_VERIF_HOOKS_H_HAS_BEEN_INCLUDED */
